@@ -203,3 +203,16 @@ CHECKS["C10"] = {
         rapid_job("resource-stress", "./verifh/c10", "TestResourceShutdownStress", 300, 2500, timeout={Q: 400, T: 2400}),
     ],
 }
+
+CHECKS["C07"] = {
+    "rule": ("rapid stateful sequences (5-40 steps) on Value/Collection (all options, id interceptors, masks) with 0-3 subscriptions, and on trait models (parent, metadata, enter/leave, electric, "
+             "vending, publication, hail, booking, fan speed, mode, meter) through their public methods with generated arguments; every message crossing the boundary (read results, write results, "
+             "event new/old values, seeds) is registered with a deep copy and re-compared after every later operation; every message handed to a write is scribbled over right after the call and the "
+             "contents re-compared with the reference model / an independent read; read-only operations (Get, List, Pull incl. seed, Describe) must leave the stored state unchanged. "
+             "non-trivial = a registered snapshot survived >=3 later steps in a run with >=3 successful writes; distinct by op/outcome sequence"),
+    "assumptions": ["the harness never writes to a message it obtained from a read (the property does not promise that is safe)", "interceptors only modify the message they are documented to modify"],
+    "jobs": [
+        rapid_job("core", "./verifh/c07", "TestCoreValueIsolation|TestCoreCollectionIsolation", 1000, 8000),
+        rapid_job("models", "./verifh/c07", "TestModel(Parent|Metadata|EnterLeave|Electric|Vending|Publication|Hail|Booking)", 400, 3000),
+    ],
+}
